@@ -11,7 +11,8 @@ RECURSIVE NoBadAddF(_, _, _)
 NoBadAddF(d, uas, i) ==
   IF i > Len(uas) THEN TRUE
   ELSE LET x == uas[i]
-       IN IF x.n = "addF" /\ d.hasF THEN FALSE
+       IN IF IsNoop(d, x) THEN NoBadAddF(d, uas, i + 1)
+          ELSE IF x.n = "addF" /\ d.hasF THEN FALSE
           ELSE IF x.n = "bad" \/ ~Applicable(d, x) THEN TRUE
           ELSE NoBadAddF(ApplyDA(d, x), uas, i + 1)
 
